@@ -550,6 +550,7 @@ def VEC(n):
 
 
 Z_K = ('Z',)
+QPAIR_K = ('QPAIR',)
 Q_K = ('Q',)                   # a rational input (numerator, positive denominator)
 Q_POS = ('Q', 'pos')           # a positive rational input
 Z_POS = ('Z', 'pos')           # an integer input the instance assumes positive (a divisor)
@@ -950,6 +951,9 @@ class Exec:
                 if not isinstance(v, (Vec, X, Frac)):
                     raise _Unsup(f'arithmetic between a numpy vector and a {describe(v)}')
             return self._elementwise(lambda x, y: s_arith(op, x, y), a, b)
+        if op == 'add' and isinstance(a, PyTuple) and isinstance(b, PyTuple) and a.kind == b.kind \
+                and not isinstance(a, NamedTup) and not isinstance(b, NamedTup):
+            return PyTuple(list(a.items) + list(b.items), a.kind)         # tuple + tuple: concatenation
         return s_arith(op, a, b)
 
     def ev_UnaryOp(self, node, env):
@@ -1806,6 +1810,21 @@ class Exec:
                                                          f'statements than the {len(mode)} the spec describes')
         if mode[k] == 'none':
             return ('none',)
+        if mode[k].startswith('callarg:') or mode[k] == 'callargs' or mode[k].startswith('expr:'):
+            # `return f(a, b, ...)`: one positional argument / all of them; or a given expression over the locals
+            try:
+                if mode[k].startswith('expr:'):
+                    v = self.ev(ast.parse(mode[k][5:], mode='eval').body, env)
+                else:
+                    if not isinstance(s.value, ast.Call) or any(isinstance(a, ast.Starred) for a in s.value.args):
+                        raise _Unsup('the returned value is not a call')
+                    if mode[k] == 'callargs':
+                        v = PyTuple([self.ev(a, env) for a in s.value.args])
+                    else:
+                        v = self.ev(s.value.args[int(mode[k][8:])], env)
+            except (_Unsup, IndexError) as e:
+                raise TranslationRefused(self.spec['name'], f'line {s.lineno}: observed part of the return: {e}')
+            return self.leaf_value(v, f'line {s.lineno}: observed part of the return')
         if mode[k] == 'subscript':
             # `return a[..., r0:r1, c0:c1]`: the observed value is the index itself (the slices, without Ellipsis)
             if not isinstance(s.value, ast.Subscript):
@@ -2325,6 +2344,12 @@ def _make_input(kind, base, namer, inputs):
         if pos:
             _POSVARS.add(comps[0])
         return Frac(var(comps[0], 'Z'), var(comps[1], 'Z'))
+    if k == 'QPAIR':                     # a pair of rationals ((n0, d0), (n1, d1)), denominators positive
+        nm = namer.fresh(base)
+        comps = [namer.fresh(f'{base}_{t}') for t in ('n0', 'd0', 'n1', 'd1')]
+        inputs.append({'name': nm, 'type': TT(TZn(2), TZn(2)), 'comps': comps, 'nested': True})
+        _POSVARS.update((comps[1], comps[3]))
+        return PyTuple([Frac(var(comps[0], 'Z'), var(comps[1], 'Z')), Frac(var(comps[2], 'Z'), var(comps[3], 'Z'))])
     if k == 'NT':                        # a named tuple of integers with the given field names
         v = _make_input(T(len(kind[1])), base, namer, inputs)
         return NamedTup(v.items, kind[1])
@@ -2526,7 +2551,7 @@ def translate_one(spec, fdefs, loader=None):
         raise TranslationRefused(name, f'function {spec["func"]} not found in {spec["file"]}')
     a = fd.args
     kwarg_ok = a.kwarg is None or spec.get('kwarg') == a.kwarg.arg
-    deco_ok = all(isinstance(d_, ast.Name) and d_.id in spec.get('decorators', ()) for d_ in fd.decorator_list)
+    deco_ok = all(ast.unparse(d_) in spec.get('decorators', ()) for d_ in fd.decorator_list)
     if a.vararg or not kwarg_ok or a.kwonlyargs or a.posonlyargs or not deco_ok:
         raise TranslationRefused(name, 'signature has decorators, *args, **kwargs or keyword-only parameters')
     pnames = [x.arg for x in a.args]
@@ -3175,6 +3200,66 @@ SPECS_C13 = [
          fallback='(minwave, maxwave, ' + _CEILD.format(a='maxwave - minwave', d='dwave') + ' + 1)'),
 ]
 
+# ---------------------------------------------------------------------- C01: lentil/fourier.py
+FOU = 'lentil/fourier.py'
+_DFT_PARAMS = {'f': ARR(2), 'alpha': OPAQUE_K, 'shape': NONE_K, 'shift': T(2), 'offset': T(2), 'unitary': OPAQUE_K,
+               'out': NONE_K}
+_DFT = dict(file=FOU, func='dft2', observe_calls={'MATS': '_dft2_matrices'},
+            observe='(MATS_0[0], MATS_0[1], MATS_0[2], MATS_0[3], MATS_0[6], MATS_0[7], MATS_0[8], MATS_0[9])',
+            rtype=TZn(8))
+SPECS_C01 = [
+    dict(name='dft2_coords', file=FOU, func='_dft2_coords', decorators=('functools.lru_cache(maxsize=32)',),
+         params={'m': Z_K, 'n': Z_K, 'M': Z_K, 'N': Z_K}, rationals=True, index_var='k', rtype=TZn(4),
+         doc='_dft2_coords(m, n, M, N): element k of the four coordinate vectors R, S, U, V it returns '
+             '(np.arange(n) - np.floor(n/2.0)), for a generic index k - the origin convention of both planes',
+         fallback='(k - m / 2, k - n / 2, k - M / 2, k - N / 2)'),
+    dict(_DFT, name='dft2_args', params=_DFT_PARAMS,
+         doc='dft2(f, alpha, shape=None, shift, offset) for a 2-d f and integer shift / offset pairs: the integer '
+             'arguments (m, n, M, N, shift_row, shift_col, offset_row, offset_col) handed to _dft2_matrices',
+         fallback="(fst f_shape, snd f_shape, fst f_shape, snd f_shape, fst shift, snd shift, fst offset, snd offset)"),
+    dict(_DFT, name='dft2_args_shape', params=dict(_DFT_PARAMS, shape=T(2)),
+         doc='the same with a 2-tuple shape argument',
+         fallback="(fst f_shape, snd f_shape, fst shape, snd shape, fst shift, snd shift, fst offset, snd offset)"),
+    dict(_DFT, name='dft2_args_scalars', params=dict(_DFT_PARAMS, shape=Z_K, shift=Z_K, offset=Z_K),
+         doc='the same with scalar shape, shift and offset (np.broadcast_to(x, (2,)) duplicates them)',
+         fallback="(fst f_shape, snd f_shape, shape, shape, shift, shift, offset, offset)"),
+    dict(name='idft2_divisor', file=FOU, func='idft2',
+         params={'F': ARR(2), 'alpha': OPAQUE_K, 'shape': OPAQUE_K, 'shift': OPAQUE_K, 'unitary': BOOL_K,
+                 'out': OPAQUE_K},
+         observe='F', returns=['none', 'callarg:1'], rtype=TOPT(TZ),
+         doc='idft2(F, ...) for a 2-d F: None when unitary (returned undivided), else the divisor handed to np.divide '
+             '(F.size of the INPUT, taken before F is rebound)',
+         fallback='if unitary then None else Some (fst F_shape * snd F_shape)'),
+]
+
+# ---------------------------------------------------------------------- C07: lentil/plane.py multiplication bookkeeping
+_TQP = TT(TZn(2), TZn(2))
+_MULSH = dict(file='lentil/plane.py', func='Plane.multiply',
+              calls={'_can_mul_ptype(wavefront.ptype, self.ptype)': ('can_mul', BOOL_K)},
+              loop_focus={'iter': 'data', 'mode': 'before'}, observe='shape', rtype=TRES(TZn(2)))
+SPECS_C07 = [
+    dict(name='mul_pixelscale', file='lentil/plane.py', func='_mul_pixelscale',
+         params={'a_pixelscale': QPAIR_K, 'b_pixelscale': QPAIR_K}, rationals=True, rtype=TRES(_TQP),
+         doc='_mul_pixelscale(a, b) for two (row, column) pixel scales given as exact rationals: equal per axis -> a, '
+             'else ValueError (rational equality, cross-multiplied)',
+         fallback="let '((an0, ad0), (an1, ad1)) := a_pixelscale in let '((bn0, bd0), (bn1, bd1)) := b_pixelscale in\n"
+                  '  if (an0 * bd0 =? bn0 * ad0) && (an1 * bd1 =? bn1 * ad1) then Ok a_pixelscale else Err ValueError'),
+    dict(name='mul_pixelscale_left_none', file='lentil/plane.py', func='_mul_pixelscale',
+         params={'a_pixelscale': NONE_K, 'b_pixelscale': QPAIR_K}, rationals=True, rtype=_TQP,
+         doc='_mul_pixelscale(None, b): b is inherited', fallback='b_pixelscale'),
+    dict(name='mul_pixelscale_right_none', file='lentil/plane.py', func='_mul_pixelscale',
+         params={'a_pixelscale': QPAIR_K, 'b_pixelscale': NONE_K}, rationals=True, rtype=_TQP,
+         doc='_mul_pixelscale(a, None): a is inherited', fallback='a_pixelscale'),
+    dict(_MULSH, name='multiply_shape', params={'self': OBJ(shape=T(2)), 'wavefront': OBJ(shape=T(2))},
+         doc='Plane.multiply(wavefront) for a plane with a 2-d shape: TypeError when the plane types cannot be '
+             'multiplied (can_mul = _can_mul_ptype(...)), else the shape of the result when the loop over the fields is '
+             'reached: the plane\'s shape',
+         fallback='if negb can_mul then Err TypeError else Ok self_shape'),
+    dict(_MULSH, name='multiply_shape_scalar_plane', params={'self': OBJ(shape=T(0)), 'wavefront': OBJ(shape=T(2))},
+         doc='the same for a plane whose shape is () (scalar mask): the wavefront\'s shape is kept',
+         fallback='if negb can_mul then Err TypeError else Ok wavefront_shape'),
+]
+
 # ---------------------------------------------------------------------- C03: lentil/plane.py segment bookkeeping
 PLN = 'lentil/plane.py'
 SPECS_C03 = [
@@ -3311,6 +3396,10 @@ SUITES = {
             'proofs': 'theories/Proofs/SpectrumSrcP.v', 'target': 'theories/Properties/C15Src.vo', 'props': 'C15Src'},
     'C13': {'specs': SPECS_C13, 'gen': 'theories/Gen/SpectrumOpSrc.v', 'imports': 'Lib.Base',
             'proofs': 'theories/Proofs/SpectrumOpSrcP.v', 'target': 'theories/Properties/C13Src.vo', 'props': 'C13Src'},
+    'C01': {'specs': SPECS_C01, 'gen': 'theories/Gen/FourierSrc.v', 'imports': 'Lib.Base',
+            'proofs': 'theories/Proofs/FourierSrcP.v', 'target': 'theories/Properties/C01Src.vo', 'props': 'C01Src'},
+    'C07': {'specs': SPECS_C07, 'gen': 'theories/Gen/PlaneMulSrc.v', 'imports': 'Lib.Base',
+            'proofs': 'theories/Proofs/PlaneMulSrcP.v', 'target': 'theories/Properties/C07Src.vo', 'props': 'C07Src'},
     'C03': {'specs': SPECS_C03, 'gen': 'theories/Gen/SegmentSrc.v', 'imports': 'Lib.Base',
             'proofs': 'theories/Proofs/SegmentSrcP.v', 'target': 'theories/Properties/C03Src.vo', 'props': 'C03Src'},
     'C19': {'specs': SPECS_C19, 'gen': 'theories/Gen/BlurSrc.v', 'imports': 'Lib.Base',
@@ -4606,6 +4695,181 @@ PREF.update({
     'plane_shape_2d': lambda sh: min(sh) >= 1, 'plane_shape_3d': lambda sh: min(sh) >= 1,
     'plane_size_2d': lambda sh: min(sh) >= 1, 'plane_size_3d': lambda sh: min(sh) >= 1,
 })
+
+
+# ====================================================================== C01: fourier.py
+MIRROR.update({
+    'dft2_coords': lambda m, n, M, N, k: (k - m // 2, k - n // 2, k - M // 2, k - N // 2),
+    'dft2_args': lambda fs, sh, off: (fs[0], fs[1], fs[0], fs[1], sh[0], sh[1], off[0], off[1]),
+    'dft2_args_shape': lambda fs, shape, sh, off: (fs[0], fs[1], shape[0], shape[1], sh[0], sh[1], off[0], off[1]),
+    'dft2_args_scalars': lambda fs, shape, sh, off: (fs[0], fs[1], shape, shape, sh, sh, off, off),
+    'idft2_divisor': lambda fs, unitary: None if unitary else fs[0] * fs[1],
+})
+
+
+def _drv_dft2_coords(L, m, n, M, N, k):
+    if not all(1 <= v <= 16 for v in (m, n, M, N)):
+        return SKIP
+    f = L.fourier._dft2_coords
+    R, S_, U, V = getattr(f, '__wrapped__', f)(m, n, M, N)
+    if not 0 <= k < min(m, n, M, N):
+        return SKIP
+    return (_intlike(R[k]), _intlike(S_[k]), _intlike(U[k]), _intlike(V[k]))
+
+
+def _drv_dft2_args(L, fs, *rest):
+    import numpy as np
+    shape = rest[0] if len(rest) == 3 else None
+    sh, off = rest[-2], rest[-1]
+    dims = list(fs) + (list(shape) if isinstance(shape, tuple) else ([shape] if shape is not None else []))
+    if not all(1 <= v <= 8 for v in dims):
+        return SKIP
+    rec, orig = [], L.fourier._dft2_matrices
+
+    def spy(*a):
+        rec.append(a)
+        return orig(*a)
+    L.fourier._dft2_matrices = spy
+    try:
+        L.fourier.dft2(np.ones(fs), 0.125, shape=shape, shift=sh, offset=off)
+    finally:
+        L.fourier._dft2_matrices = orig
+    if len(rec) != 1:
+        return SKIP
+    a = rec[0]
+    return tuple(_intlike(a[i]) for i in (0, 1, 2, 3, 6, 7, 8, 9))
+
+
+def _drv_idft2_divisor(L, fs, unitary):
+    import numpy as np
+    if not all(1 <= v <= 8 for v in fs):
+        return SKIP
+    rec, orig = [], np.divide
+
+    def spy(*a, **k):
+        if sys._getframe(1).f_code.co_name == 'idft2':
+            rec.append(a)
+        return orig(*a, **k)
+    np.divide = spy
+    try:
+        L.fourier.idft2(np.ones(fs, dtype=complex), 0.125, unitary=bool(unitary))
+    finally:
+        np.divide = orig
+    if unitary:
+        return None if not rec else ('unexpected division', _intlike(rec[0][1]))
+    return _intlike(rec[0][1]) if len(rec) == 1 else SKIP
+
+
+DRIVER.update({'dft2_coords': _drv_dft2_coords, 'dft2_args': _drv_dft2_args, 'dft2_args_shape': _drv_dft2_args,
+               'dft2_args_scalars': _drv_dft2_args, 'idft2_divisor': _drv_idft2_divisor})
+_r = lambda rng, lo=1, hi=7: rng.randint(lo, hi)      # noqa: E731
+SAMPLER.update({
+    'dft2_coords': lambda rng: (lambda m, n, M, N: (m, n, M, N, rng.randint(0, min(m, n, M, N) - 1)))(
+        _r(rng), _r(rng), _r(rng), _r(rng)),
+    'dft2_args': lambda rng: ((_r(rng), _r(rng)), (_r(rng, -4, 4), _r(rng, -4, 4)), (_r(rng, -4, 4), _r(rng, -4, 4))),
+    'dft2_args_shape': lambda rng: ((_r(rng), _r(rng)), (_r(rng), _r(rng)), (_r(rng, -4, 4), _r(rng, -4, 4)),
+                                    (_r(rng, -4, 4), _r(rng, -4, 4))),
+    'dft2_args_scalars': lambda rng: ((_r(rng), _r(rng)), _r(rng), _r(rng, -4, 4), _r(rng, -4, 4)),
+    'idft2_divisor': lambda rng: ((_r(rng), _r(rng)), rng.random() < 0.5),
+})
+PREF.update({
+    'dft2_coords': lambda m, n, M, N, k: min(m, n, M, N) >= 1 and 0 <= k < min(m, n, M, N),
+    'dft2_args': lambda fs, sh, off: min(fs) >= 1, 'dft2_args_shape': lambda fs, shape, sh, off: min(fs + shape) >= 1,
+    'dft2_args_scalars': lambda fs, shape, sh, off: min(fs) >= 1 and shape >= 1,
+    'idft2_divisor': lambda fs, u: min(fs) >= 1,
+})
+
+
+# ====================================================================== C07: plane.py multiplication bookkeeping
+def _m_mul_pix(a, b):
+    if a[0][0] * b[0][1] == b[0][0] * a[0][1] and a[1][0] * b[1][1] == b[1][0] * a[1][1]:
+        return ('ok', a)
+    return ('err', 'ValueError')
+
+
+def _canon_qpair(v):
+    from fractions import Fraction
+    if isinstance(v, tuple) and len(v) == 2 and v[0] in ('ok', 'err'):
+        return v if v[0] == 'err' else ('ok', _canon_qpair(v[1]))
+    return tuple(x if isinstance(x, Fraction) else Fraction(x[0], x[1]) for x in v)
+
+
+MIRROR.update({'mul_pixelscale': _m_mul_pix, 'mul_pixelscale_left_none': lambda b: b,
+               'mul_pixelscale_right_none': lambda a: a,
+               'multiply_shape': lambda ps, ws, can: ('ok', tuple(ps)) if can else ('err', 'TypeError'),
+               'multiply_shape_scalar_plane': lambda ws, can: ('ok', tuple(ws)) if can else ('err', 'TypeError')})
+for _n in ('mul_pixelscale', 'mul_pixelscale_left_none', 'mul_pixelscale_right_none'):
+    CANON[_n] = _canon_qpair
+
+
+def _dyadic(p):
+    """(n, d) with d a power of two <= 64 and small n: exactly a float"""
+    return p[1] >= 1 and p[1] & (p[1] - 1) == 0 and p[1] <= 64 and abs(p[0]) <= 4096
+
+
+def _drv_mul_pix(L, a, b):
+    from fractions import Fraction
+    for p in [q for q in (a, b) if q is not None]:
+        if not (_dyadic(p[0]) and _dyadic(p[1])):
+            return SKIP
+    fa = None if a is None else (a[0][0] / a[0][1], a[1][0] / a[1][1])
+    fb = None if b is None else (b[0][0] / b[0][1], b[1][0] / b[1][1])
+    try:
+        r = L.plane._mul_pixelscale(fa, fb)
+    except ValueError:
+        return ('err', 'ValueError')
+    v = (Fraction(float(r[0])), Fraction(float(r[1])))
+    return ('ok', v) if (a is not None and b is not None) else v
+
+
+def _drv_multiply_shape(L, ps, ws, can):
+    import numpy as np
+    if not all(1 <= v <= 6 for v in ws) or (ps is not None and not all(1 <= v <= 6 for v in ps)):
+        return SKIP
+    w = L.Wavefront(650e-9, ptype='pupil' if can else 'image')
+    w.shape = tuple(ws)
+    plane = L.Pupil(amplitude=(np.ones(ps) if ps is not None else 1), pixelscale=1e-3, focal_length=1.0)
+    loc, r = _trace_locals(plane.multiply, 'multiply', 'lentil/plane.py', w)
+    if isinstance(r, TypeError):
+        return ('err', 'TypeError')
+    if loc is None or 'shape' not in loc:
+        return SKIP
+    return ('ok', _ints(loc['shape']))
+
+
+DRIVER.update({'mul_pixelscale': _drv_mul_pix, 'mul_pixelscale_left_none': lambda L, b: _drv_mul_pix(L, None, b),
+               'mul_pixelscale_right_none': lambda L, a: _drv_mul_pix(L, a, None),
+               'multiply_shape': _drv_multiply_shape,
+               'multiply_shape_scalar_plane': lambda L, ws, can: _drv_multiply_shape(L, None, ws, can)})
+
+
+def _s_qpair(rng):
+    return ((rng.randint(1, 40), rng.choice([1, 2, 4, 8])), (rng.randint(1, 40), rng.choice([1, 2, 4, 8])))
+
+
+def _s_mul_pix(rng):
+    a = _s_qpair(rng)
+    t = rng.random()
+    if t < 0.5:                       # the same values, possibly spelled with other denominators
+        k0, k1 = rng.choice([1, 2, 4]), rng.choice([1, 2, 4])
+        b = ((a[0][0] * k0, a[0][1] * k0), (a[1][0] * k1, a[1][1] * k1))
+    elif t < 0.7:
+        b = (a[0], _s_qpair(rng)[1])
+    else:
+        b = _s_qpair(rng)
+    return (a, b)
+
+
+SAMPLER.update({'mul_pixelscale': _s_mul_pix, 'mul_pixelscale_left_none': lambda rng: (_s_qpair(rng),),
+                'mul_pixelscale_right_none': lambda rng: (_s_qpair(rng),),
+                'multiply_shape': lambda rng: ((_r(rng, 1, 6), _r(rng, 1, 6)), (_r(rng, 1, 6), _r(rng, 1, 6)),
+                                               rng.random() < 0.7),
+                'multiply_shape_scalar_plane': lambda rng: ((_r(rng, 1, 6), _r(rng, 1, 6)), rng.random() < 0.7)})
+PREF.update({'mul_pixelscale': lambda a, b: all(_dyadic(q) for q in a + b),
+             'mul_pixelscale_left_none': lambda b: all(_dyadic(q) for q in b),
+             'mul_pixelscale_right_none': lambda a: all(_dyadic(q) for q in a),
+             'multiply_shape': lambda ps, ws, can: min(ps + ws) >= 1,
+             'multiply_shape_scalar_plane': lambda ws, can: min(ws) >= 1})
 
 
 # ====================================================================== the check of one layer (called from extra)
